@@ -32,6 +32,7 @@ type Fn struct {
 	Method   bool     `json:"method"`
 	Params   []string `json:"params"`
 	Variadic string   `json:"variadic,omitempty"` // element type of the variadic tail ("" = none)
+	Blank    []bool   `json:"blank,omitempty"`    // parameters declared with the blank identifier (received, never read)
 	Results  []string `json:"results"`
 	RetExpr  []string `json:"ret_expr"`
 }
@@ -114,6 +115,7 @@ func genFn(rt *rapid.T, idx int) Fn {
 	np := rx.Range(rt, "nparams", 0, 5)
 	for i := 0; i < np; i++ {
 		f.Params = append(f.Params, rx.Pick(rt, "ptype", paramTypes...))
+		f.Blank = append(f.Blank, rx.Chance(rt, "blankparam", 1, 6))
 	}
 	if rx.Chance(rt, "variadic", 1, 4) {
 		f.Variadic = rx.Pick(rt, "vtype", "int", "string", "float64", "any", "uint8", "int8", "uint32", "float64")
@@ -125,7 +127,7 @@ func genFn(rt *rapid.T, idx int) Fn {
 		// result expression: a parameter of the same type, or an untyped constant / nil that must be converted
 		var cands []string
 		for pi, pt := range f.Params {
-			if pt == t {
+			if pt == t && !f.blank(pi) {
 				cands = append(cands, fmt.Sprintf("p%d", pi))
 			}
 		}
@@ -158,9 +160,18 @@ func genFn(rt *rapid.T, idx int) Fn {
 	return f
 }
 
-func (f Fn) sig() (params, results string) {
+func (f Fn) blank(i int) bool { return i < len(f.Blank) && f.Blank[i] }
+
+func (f Fn) sig() (params, results string) { return f.sigNamed(false) }
+
+// sigNamed renders the signature; with allNamed every parameter has a name (the forwarding wrapper needs them all).
+func (f Fn) sigNamed(allNamed bool) (params, results string) {
 	var ps []string
 	for i, t := range f.Params {
+		if f.blank(i) && !allNamed {
+			ps = append(ps, "_ "+t)
+			continue
+		}
 		ps = append(ps, fmt.Sprintf("p%d %s", i, t))
 	}
 	if f.Variadic != "" {
@@ -189,6 +200,9 @@ func (f Fn) decl() string {
 		shows = append(shows, "t.V")
 	}
 	for i, t := range f.Params {
+		if f.blank(i) {
+			continue
+		}
 		shows = append(shows, show(t, fmt.Sprintf("p%d", i))...)
 	}
 	if f.Variadic != "" {
@@ -216,7 +230,8 @@ func (f Fn) decl() string {
 		if f.Method {
 			target = "t." + f.Name
 		}
-		fmt.Fprintf(&sb, "func %sw%s(%s)%s {\n\treturn %s(%s)\n}\n\n", recv, f.Name, ps, rs, target, strings.Join(args, ", "))
+		wps, _ := f.sigNamed(true)
+		fmt.Fprintf(&sb, "func %sw%s(%s)%s {\n\treturn %s(%s)\n}\n\n", recv, f.Name, wps, rs, target, strings.Join(args, ", "))
 	}
 	return sb.String()
 }
